@@ -175,10 +175,14 @@ impl DepSpec {
             "greater" => Dependency::greater(self.name.clone(), self.version.clone()),
             "greater_eq" => Dependency::greater_eq(self.name.clone(), self.version.clone()),
             "script_pre" => Dependency::script_pre(self.name.clone()),
+            "script_post" => Dependency::script_post(self.name.clone()),
+            "script_preun" => Dependency::script_preun(self.name.clone()),
+            "script_postun" => Dependency::script_postun(self.name.clone()),
+            "rpmlib" => Dependency::rpmlib(self.name.clone(), self.version.clone()),
             "config" => Dependency::config(&self.name, self.version.clone()),
             "user" => Dependency::user(&self.name),
             "group" => Dependency::group(&self.name),
-            _ => Dependency::any(self.name.clone()),
+            other => crate::ctx::machinery(&format!("unknown dependency constructor {}", other)),
         }
     }
     /// (name, flag bits, version) as documented for each constructor
@@ -192,6 +196,10 @@ impl DepSpec {
             "greater" => (self.name.clone(), g, self.version.clone()),
             "greater_eq" => (self.name.clone(), g | e, self.version.clone()),
             "script_pre" => (self.name.clone(), 1 << 9, String::new()),
+            "script_post" => (self.name.clone(), 1 << 10, String::new()),
+            "script_preun" => (self.name.clone(), 1 << 11, String::new()),
+            "script_postun" => (self.name.clone(), 1 << 12, String::new()),
+            "rpmlib" => (format!("rpmlib({})", self.name), (1 << 24) | e, self.version.clone()),
             "config" => (format!("config({})", self.name), (1 << 28) | e, self.version.clone()),
             "user" => (format!("user({})", self.name), (1 << 9) | (1 << 12), String::new()),
             "group" => (format!("group({})", self.name), (1 << 9) | (1 << 12), String::new()),
